@@ -1034,7 +1034,9 @@ func (e *Enc) mapStore(st *State, mt types.Type, m, kt string, v *Val, ksort, dk
 	for i, lf := range vleaves {
 		key, sort := mapValKey(mt, lf, ksort)
 		h := e.heapGet(st, key, sort)
-		e.withRef(m, func() { e.heapSet(st, key, sort, "(store "+h+" "+m+" (store (select "+h+" "+m+") "+kt+" "+v.L[i].T+"))") })
+		e.withRef(m, func() {
+			e.heapSet(st, key, sort, "(store "+h+" "+m+" (store (select "+h+" "+m+") "+kt+" "+v.L[i].T+"))")
+		})
 	}
 }
 
